@@ -101,7 +101,88 @@ def ref_face_normals(P, tris):
     return out
 
 
+def run_poly_case(case):
+    """every Triangle a polygon primitive without normals hands out - Polygon.triangles(), triangleset()[i],
+    and the same through the bound primitive - carries the unit right-hand normal of its own vertices"""
+    import collada
+    from collada import source, geometry
+    fails = []
+
+    def fail(clause, site, what):
+        if len(fails) < 4:
+            fails.append({'clause': clause, 'site': site, 'what': what})
+
+    def check_triangle(T, site, where):
+        V = numpy.asarray(T.vertices, dtype=numpy.float64)
+        e1, e2 = V[1] - V[0], V[2] - V[0]
+        cr = numpy.cross(e1, e2)
+        l1, l2, lc = (math.sqrt(float(numpy.dot(x, x))) for x in (e1, e2, cr))
+        if l1 == 0 or l2 == 0 or lc < 0.05 * l1 * l2:
+            return True                               # (nearly) degenerate fan triangle: no demand
+        ref = cr / lc
+        rows = numpy.asarray(T.normals, dtype=numpy.float64)
+        if rows.shape != (3, 3):
+            fail('face-normal', site, '%s: Triangle.normals has shape %r' % (where, rows.shape))
+            return False
+        if not numpy.all(numpy.abs(rows - ref) <= DIR_TOL / max(0.05, lc / (l1 * l2))):
+            fail('face-normal', site, '%s (vertices %s): implicit normals %s, unit right-hand normal of these vertices is %s'
+                 % (where, V.tolist(), rows.tolist(), ref.tolist()))
+            return False
+        if not numpy.all(numpy.abs(numpy.sqrt((rows * rows).sum(axis=1)) - 1.0) <= UNIT_TOL):
+            fail('face-normal-unit', site, '%s: implicit normals %s are not unit vectors' % (where, rows.tolist()))
+            return False
+        return True
+
+    try:
+        mode = case['mode']
+        if mode in ('api', 'bound-api'):
+            mesh = collada.Collada()
+            v = numpy.array(case['fverts'], dtype=numpy.float32).reshape(-1)
+            g = geometry.Geometry(mesh, 'g', 'g', [source.FloatSource('vsrc', v, ('X', 'Y', 'Z'))])
+            il = source.InputList()
+            il.addInput(0, 'VERTEX', '#vsrc')
+            idx = numpy.array([i for p in case['polys'] for i in p], dtype=numpy.int32)
+            vc = numpy.array([len(p) for p in case['polys']], dtype=numpy.int32)
+            pl = g.createPolylist(idx, vc, il, 'mat')
+            g.primitives.append(pl)
+            mesh.geometries.append(g)
+        else:
+            mesh = collada.Collada(io.BytesIO(case['xml'].encode('utf-8')))
+            g = mesh.geometries[0]
+            pl = g.primitives[0]
+        prims = [(pl, type(pl).__name__)]
+        if mode == 'bound-api':
+            m = case['mat']
+            M = numpy.array([m[0:4], m[4:8], m[8:12], [0, 0, 0, 1]], dtype=numpy.float32)
+            prims.append((list(g.bind(M, {}).primitives())[0], 'Bound' + type(pl).__name__))
+        elif mode == 'bound-xml':
+            prims.append((list(list(mesh.scene.objects('geometry'))[0].primitives())[0], 'Bound' + type(pl).__name__))
+    except Exception as e:  # noqa
+        return {'obs': None, 'fails': [{'clause': 'construct', 'site': case['mode'],
+                                        'what': 'could not build the polygon primitive: %r' % (e,)}]}
+    for prim, site in prims:
+        try:
+            ok = True
+            for pi, poly in enumerate(prim):
+                if not ok:
+                    break
+                for ti, T in enumerate(poly.triangles()):
+                    ok = check_triangle(T, site + '.Polygon.triangles', 'polygon %d, fan triangle %d' % (pi, ti))
+                    if not ok:
+                        break
+            if hasattr(prim, 'triangleset'):
+                ts = prim.triangleset()
+                for i in range(len(ts)):
+                    if not check_triangle(ts[i], site + '.triangleset', 'triangle %d' % i):
+                        break
+        except Exception as e:  # noqa
+            fail('face-normal', site, 'iterating the triangles of the polygons raised %r' % (e,))
+    return {'obs': None, 'fails': fails}
+
+
 def run_case(case):
+    if case['kind'] == 'poly':
+        return run_poly_case(case)
     fails = []
     obs = {}
 
